@@ -142,6 +142,9 @@ structure MCfg where
   removeOldAfterCurrent : Bool
   /-- `writeCurrent` writes CURRENT.tmp and renames it over CURRENT. -/
   currentViaRename : Bool
+  /-- `writeCurrent` fsyncs CURRENT.tmp before the rename (when `syncWrites`): the name CURRENT
+      holds is on stable storage before CURRENT switches to it. -/
+  currentTmpSynced : Bool
   /-- sync after the append when some edit of the batch `requiresSync` and `syncWrites`. -/
   syncOnAppend : Bool
   /-- rewrite triggers when `size >= threshold` (`info.Size() < threshold` ⇒ no rewrite). -/
@@ -159,6 +162,7 @@ def MCfg.good : MCfg :=
   { snapInvalidAsUpdate := true, vlogDelZeroesOffset := true, headForcesValid := true,
     delFileFirstOnly := true, nilRaftRoundtrip := true, nilRegionRoundtrip := true,
     currentAfterSnapshot := true, removeOldAfterCurrent := true, currentViaRename := true,
+    currentTmpSynced := true,
     syncOnAppend := true, rewriteAtGE := true,
     verifyTruncPartLen := true, verifyTruncLenOnly := true, verifyTruncPartPayload := true,
     openVerifies := true }
@@ -166,7 +170,7 @@ def MCfg.good : MCfg :=
 /-- the as-is tree (pinned commit) -/
 def MCfg.asis : MCfg :=
   { MCfg.good with snapInvalidAsUpdate := false, nilRaftRoundtrip := false,
-                   nilRegionRoundtrip := false, openVerifies := false }
+                   nilRegionRoundtrip := false, openVerifies := false, currentTmpSynced := false }
 
 /-- flags the snapshot-faithfulness theorem needs -/
 def MCfg.GoodSnap (c : MCfg) : Prop := c.snapInvalidAsUpdate = true ∧ c.headForcesValid = true
@@ -196,6 +200,12 @@ def MCfg.GoodOpen (c : MCfg) : Prop := c.Good ∧ c.openVerifies = true
 
 instance MCfg.decGoodOpen (c : MCfg) : Decidable c.GoodOpen := by
   unfold MCfg.GoodOpen; exact inferInstance
+
+/-- flags of the multi-round theorem under loss of unsynced bytes -/
+def MCfg.GoodLoss (c : MCfg) : Prop := c.Good ∧ c.currentTmpSynced = true ∧ c.syncOnAppend = true
+
+instance MCfg.decGoodLoss (c : MCfg) : Decidable c.GoodLoss := by
+  unfold MCfg.GoodLoss; exact inferInstance
 
 /-- as-is theorems (`_partial`): additionally the delete rule zeroes the offset -/
 def MCfg.GoodAsIs (c : MCfg) : Prop := c.GoodSteps ∧ c.vlogDelZeroesOffset = true
